@@ -31,7 +31,11 @@ def norm_valid(vv):
         elif isinstance(v, ns.NamedRange):
             iv.append((v._start, v._end - 1))
         elif isinstance(v, type):
-            for m in v:
+            try:
+                members = list(v)
+            except TypeError:
+                return  # a class that is not an enumeration (never equals a value)
+            for m in members:
                 add(m)
         else:
             iv.append((int(v), int(v)))
